@@ -81,8 +81,10 @@ FailingDuring(i, t0, t1) == \E w \in SeqToSet(cfg.windows) : w.integ = i /\ w.ki
 
 \* the delivery slack of C01: a hung flush may hold the run loop until its
 \* deadline, one maximal retry back-off, scheduling slack
-Timeout == Max2(cfg.gi, MinTimeout)
-Bound == Max2(cfg.gw, cfg.gi) + (Timeout - cfg.gi) + RetrySlack + SchedSlack
+\* cfg.wait: the cluster wait of this instance (position x peer_timeout) at this moment;
+\* cfg.maxwait: the largest wait it can have (0 for a single instance)
+Timeout == Max2(cfg.gi, MinTimeout) + cfg.wait
+Bound == Max2(cfg.gw, cfg.gi) + (Max2(cfg.gi, MinTimeout) + cfg.maxwait - cfg.gi) + RetrySlack + SchedSlack + cfg.maxwait
 
 \* upper bounds of the retry gap after the k-th failed attempt:
 \* 1.5 x min(500 x 1.5^(k-1), 60 s), rounded up
@@ -95,7 +97,7 @@ NamesOf(as)    == {as[i].l : i \in 1..Len(as)}
 Entry(as, a)   == as[CHOOSE i \in 1..Len(as) : as[i].l = a]
 
 -----------------------------------------------------------------------------
-ObsInit == /\ now = 0 /\ cfg = [gw |-> 0, gi |-> 1, ri |-> 1, integs |-> <<[name |-> "webhook/0", sr |-> TRUE]>>, inhibit |-> FALSE, windows |-> << >>]
+ObsInit == /\ now = 0 /\ cfg = [gw |-> 0, gi |-> 1, ri |-> 1, integs |-> <<[name |-> "webhook/0", sr |-> TRUE]>>, inhibit |-> FALSE, windows |-> << >>, wait |-> 0, maxwait |-> 0]
            /\ ver = << >> /\ sil = << >> /\ last = << >> /\ brk = << >> /\ fl = << >> /\ cancd = [seen |-> {}, dead |-> << >>, deadgk |-> {}, refl |-> {}]
            /\ elig = [p \in Alerts \X {"webhook/0"} |-> -1] /\ chk = {}
 
@@ -183,7 +185,7 @@ FlushBegin(ag, gk, as) ==
         \cup (IF ag \in DOMAIN fl THEN {"C06_overlapping_flushes_of_one_group"} ELSE {})
   IN IF Dead(ag) THEN /\ chk' = {} /\ UNCHANGED <<now, cfg, ver, sil, last, brk, fl, cancd, elig>>
      ELSE
-     /\ fl' = Put(fl, ag, [gk |-> gk, t |-> now, alerts |-> as, att |-> [i \in Integs |-> NoAtt],
+     /\ fl' = Put(fl, ag, [gk |-> gk, t |-> now, to |-> Timeout, alerts |-> as, att |-> [i \in Integs |-> NoAtt],
                             muted |-> {a \in names \cap Alerts : MutedAt(a, now)},
                             inhibited |-> {a \in names \cap Alerts : InhibitedAt(a, now)},
                             prevF |-> [i \in Integs |-> IF <<gk, i>> \in DOMAIN last THEN last[<<gk, i>>].firing ELSE {}]])
@@ -232,7 +234,7 @@ Attempt(ag, gk, name, as, outcome, deadline, start) ==
         \cup (IF at.done THEN {"C20_attempt_after_success"} ELSE {})
         \cup (IF at.lastOutcome = "rec" /\ start - at.lastT > GapBound(at.n) THEN {"C20_retry_too_late"} ELSE {})
         \cup (IF start > deadline THEN {"C20_attempt_after_deadline"} ELSE {})
-        \cup (IF deadline # f.t + Timeout THEN {"DRIFT_flush_deadline_differs_from_max_gi_10s"} ELSE {})
+        \cup (IF deadline # f.t + f.to THEN {"DRIFT_flush_deadline_differs_from_max_gi_10s"} ELSE {})
         \* C04: a delivered notification is justified
         \cup (IF outcome = "ok" /\ ~Justified(k, i, F, R, now) THEN {"C04_unjustified_notification"} ELSE {})
   IN IF Dead(ag)
@@ -287,26 +289,28 @@ FlushDone(ag) ==
       exp(i) == Expected(f, i)
       newFiring(i) == {a \in exp(i) : Entry(f.alerts, a).status = "firing"} \ f.prevF[i]
       entryExpired(i) == <<f.gk, i>> \in DOMAIN last /\ f.t - last[<<f.gk, i>>].t >= 2 * cfg.ri
+      \* what this instance knows, at the end of the flush, to have been delivered last (its own
+      \* delivery of this flush, or a peer's log entry merged meanwhile)
+      knownFiring(i) == IF <<f.gk, i>> \in DOMAIN last THEN last[<<f.gk, i>>].firing ELSE {}
+      knownResolved(i) == IF <<f.gk, i>> \in DOMAIN last THEN last[<<f.gk, i>>].resolved ELSE {}
       newResolved(i) == IF SrOf(i) THEN {a \in exp(i) : Entry(f.alerts, a).status = "resolved"} \cap f.prevF[i] ELSE {}
       bad ==
         IF ag \notin DOMAIN fl THEN {"C06_done_outside_flush"}
         ELSE
-        (IF \E i \in Integs : f.att[i].lastOutcome = "rec" /\ ~f.att[i].done /\ now < f.t + Timeout
+        (IF \E i \in Integs : f.att[i].lastOutcome = "rec" /\ ~f.att[i].done /\ now < f.t + f.to
            THEN {"C20_gave_up_before_deadline"} ELSE {})
         \* one integration's failure never prevents the others from sending and recording
         \cup (IF \E i \in Integs : f.att[i].done /\ ~f.att[i].logged THEN {"C20_success_not_recorded"} ELSE {})
         \* C01: a firing alert the receiver has not been told about is delivered by this flush
-        \cup (IF \E i \in Integs : accepting(i) /\ newFiring(i) # {} /\
-                    ~(f.att[i].done /\ newFiring(i) \subseteq FiringOf(f.att[i].sent))
+        \* (in a cluster a peer may have delivered it meanwhile: then this instance's log says so)
+        \cup (IF \E i \in Integs : accepting(i) /\ newFiring(i) # {} /\ ~(newFiring(i) \subseteq knownFiring(i))
                 THEN {"C01_firing_alert_not_notified_by_flush"} ELSE {})
         \* C05: a resolved alert the receiver was told is firing is reported resolved by this flush
         \* (F8: the notification-log entry expires 2 x repeat_interval after the last
         \* notification; a resolution first seen later than that is forgotten - listed finding)
-        \cup (IF \E i \in Integs : accepting(i) /\ newResolved(i) # {} /\ ~entryExpired(i) /\
-                    ~(f.att[i].done /\ newResolved(i) \subseteq ResolvedOf(f.att[i].sent))
+        \cup (IF \E i \in Integs : accepting(i) /\ newResolved(i) # {} /\ ~entryExpired(i) /\ ~(newResolved(i) \subseteq knownResolved(i))
                 THEN {"C05_resolution_not_notified_by_flush"} ELSE {})
-        \cup (IF \E i \in Integs : accepting(i) /\ newResolved(i) # {} /\ entryExpired(i) /\
-                    ~(f.att[i].done /\ newResolved(i) \subseteq ResolvedOf(f.att[i].sent))
+        \cup (IF \E i \in Integs : accepting(i) /\ newResolved(i) # {} /\ entryExpired(i) /\ ~(newResolved(i) \subseteq knownResolved(i))
                 THEN {"C05_F8_resolution_forgotten_after_log_entry_expired"} ELSE {})
   IN IF Dead(ag) THEN /\ chk' = {} /\ UNCHANGED <<now, cfg, ver, sil, last, brk, fl, cancd, elig>>
      ELSE /\ fl' = IF ag \in DOMAIN fl THEN Drop(fl, {ag}) ELSE fl
@@ -337,6 +341,24 @@ Reloading(integs) ==
   /\ elig' = [p \in Alerts \X NamesOfIntegs(integs) |-> IF p \in DOMAIN elig THEN elig[p] ELSE -1]
   /\ chk' = {}
   /\ UNCHANGED <<now, ver, sil, last, brk>>
+
+\* cluster: the position of this instance among its peers changed
+SetWait(wt) ==
+  /\ cfg' = [cfg EXCEPT !.wait = wt]
+  /\ chk' = {}
+  /\ UNCHANGED <<now, ver, sil, last, brk, fl, cancd, elig>>
+
+\* cluster: a notification-log entry of a peer was merged into this instance's log (or
+\* loaded from its snapshot at start): it is from now on what this instance knows as the
+\* last notification of that (group, integration)
+NflogMerge(gk, name, ts, firing, resolved) ==
+  LET k == <<gk, name>>
+      newer == k \notin DOMAIN last \/ last[k].t < ts
+  IN /\ IF newer THEN /\ last' = Put(last, k, [t |-> ts, firing |-> firing, resolved |-> resolved])
+                       /\ brk' = Put(brk, k, FALSE)
+                  ELSE UNCHANGED <<last, brk>>
+     /\ chk' = {}
+     /\ UNCHANGED <<now, cfg, ver, sil, fl, cancd, elig>>
 
 Other == /\ chk' = {} /\ UNCHANGED <<now, cfg, ver, sil, last, brk, fl, cancd, elig>>
 
